@@ -624,7 +624,7 @@ def generated_h(L, sizes, gran, keep=None, Lmin=1):
     return out
 
 
-def run_pool_leg(part, prop, harnesses, budget, hard_cap=None):
+def run_pool_leg(part, prop, harnesses, budget, hard_cap=None, global_budget=None):
     from mc import explore
 
     seen = set()
@@ -633,7 +633,7 @@ def run_pool_leg(part, prop, harnesses, budget, hard_cap=None):
         if h[1] not in seen:
             seen.add(h[1])
             uniq.append(h)
-    total = explore.explore_adaptive(uniq, LEVELS, budget, hard_cap=hard_cap)
+    total = explore.explore_adaptive(uniq, LEVELS, budget, hard_cap=hard_cap, global_budget=global_budget)
     split_viols(total, prop)
     part.merge(total)
     part.counters["harnesses"] = part.counters.get("harnesses", 0) + len(uniq)
